@@ -79,6 +79,47 @@ def run(P, R, tier):
     # in-place curve kernel receives fresh copies only
     common.fresh_arguments(P, R, 'C08.a', callee_filter=lambda g: g.mod.name.endswith('hilbert_curve') or g.name == '_data2coord', floor=1)
 
+    # C08.h: no answer without the grid computation: every return of hilbert_distance goes through _distances_from_bounds (a shortcut for a
+    # "single location" extent forgets that explicit bounds need not contain the data: centres outside are clamped to border cells, not to cell 0)
+    common.returns_pass_through(P, R, 'C08.h', hd, lambda c: astq.is_call_to(P, hd, c, dfb), '_distances_from_bounds',
+                                'the distances are not computed from (bounds, total_bounds, p): an explicit degenerate extent with centres elsewhere gets 0 instead of the clamped border cell')
+    E = effects(P)
+    # C08.i: rows are independent inside the curve kernels too: in a loop over rows, row-indexed arrays are touched at the loop index only
+    hc = [g_ for g_ in P.all_funcs() if g_.mod.name.endswith('hilbert_curve') or g_ is dfb]
+    nrow = 0
+    for g_ in hc:
+        for loop in [l for l in walk_own(g_.node) if isinstance(l, ast.For) and isinstance(l.target, ast.Name) and isinstance(l.iter, ast.Call)
+                     and norm(l.iter.func) in ('range', 'prange', 'numba.prange') and any('.shape[0]' in norm(a) or 'len(' in norm(a) for a in l.iter.args)]:
+            iv = loop.target.id
+            bound = ' '.join(norm(a) for a in loop.iter.args)
+            rowarrays = {x for x in astq.names_in(loop.iter)}        # arrays whose length bounds the loop
+            for sub in [x for x in ast.walk(loop) if isinstance(x, ast.Subscript) and isinstance(x.value, ast.Name)]:
+                first = sub.slice.elts[0] if isinstance(sub.slice, ast.Tuple) else sub.slice
+                if iv not in astq.names_in(first):
+                    continue
+                nrow += 1
+                if norm(first) == iv:
+                    R.ok('C08.i', g_, sub, f'{g_.name}: row-indexed access at the loop index')
+                    continue
+                # another row is touched: definitely wrong when that array's rows are rewritten in place by a callee of this loop
+                arr = sub.value.id
+                views = {arr} | {t.id for a_ in ast.walk(loop) if isinstance(a_, ast.Assign) and isinstance(a_.value, ast.Subscript) and isinstance(a_.value.value, ast.Name)
+                                 and a_.value.value.id == arr for t in a_.targets if isinstance(t, ast.Name)}
+                dirty = None
+                for c_ in [x for x in ast.walk(loop) if isinstance(x, ast.Call)]:
+                    r_ = P.resolve_call(g_, c_)
+                    if not (r_ and r_[0] == 'func'):
+                        continue
+                    mp = E.mutated_params(r_[1])
+                    for k_, a_ in enumerate(c_.args):
+                        if isinstance(a_, ast.Name) and a_.id in views and k_ < len(r_[1].params) and r_[1].params[k_] in mp:
+                            dirty = (c_, r_[1])
+                if dirty is not None:
+                    R.bad('C08.i', g_, sub, f'`{norm(sub)}` reads another row of `{arr}` than `{iv}`, but the rows of `{arr}` are rewritten in place by {dirty[1].name} as the loop proceeds: '
+                          'the value read is the transformed row, so an element\'s distance depends on its neighbour / on the order of the array')
+                else:
+                    R.abstain('C08.i', g_, sub, f'`{norm(sub)}` touches another row than `{iv}`; whether that keeps rows independent is not decided')
+    R.floor('C08.i', 'row-indexed accesses in the curve kernels', nrow, 2)
     # ---------------------------------------------------------------- C08.b
     for f, seeds in ((dfb, {dfb.params[0]}), (d2c, {d2c.params[0]})):
         tainted = set(seeds)
